@@ -39,6 +39,8 @@ pub fn case_rng(seed: u64, prop: &str, exhaustive: bool, stratum: usize, case: u
 
 fn run_one(def: &props::PropDef, ctx: &mut Ctx, si: usize, exhaustive: bool, case: u64) {
     ctx.begin_case(case);
+    #[cfg(not(miri))]
+    monitor::hang::begin_case(&ctx.cur_stratum, case);
     ctx.rng = case_rng(ctx.seed, def.id, exhaustive, si, case);
     monitor::steps::reset(u64::MAX);
     let r = guard(|| (def.run)(ctx, si, case));
@@ -83,6 +85,11 @@ fn cmd_run(args: &[String]) -> i32 {
     let mut ctx = Ctx::new(def.id, tier, seed, shard, nshards);
     ctx.progress_path = arg_val(args, "--progress");
     (def.setup)(&mut ctx);
+    // --hang-limit S: a case that runs for S seconds of wall clock ends the worker with status 97 (see monitor::hang)
+    #[cfg(not(miri))]
+    if let Some(l) = arg_val(args, "--hang-limit").and_then(|s| s.parse::<u64>().ok()) {
+        monitor::hang::start(l.max(1), ctx.progress_path.clone());
+    }
     let strata = (def.strata)(tier);
     // --cases-div N: a reduced pass (used for the per-feature-configuration runs): every N-th case of every stratum
     // (same case addressing, so replays work); exhaustive strata are then not reported as exhaustive
@@ -104,6 +111,8 @@ fn cmd_run(args: &[String]) -> i32 {
             case += nshards * div;
         }
     }
+    #[cfg(not(miri))]
+    monitor::hang::finish();
     let json = ctx.to_json(t0.elapsed().as_secs_f64());
     if out == "-" {
         println!("@@REPORT@@ {json}");
@@ -132,6 +141,10 @@ fn cmd_replay(args: &[String]) -> i32 {
     let mut ctx = Ctx::new(def.id, tier, seed, 0, 1);
     ctx.verbose = true;
     (def.setup)(&mut ctx);
+    #[cfg(not(miri))]
+    if let Some(l) = arg_val(args, "--hang-limit").and_then(|s| s.parse::<u64>().ok()) {
+        monitor::hang::start(l.max(1), None);
+    }
     let strata = (def.strata)(tier);
     let si = match strata.iter().position(|s| s.name == stratum) {
         Some(i) => i,
